@@ -69,6 +69,8 @@ def _boundaries(kind):
 
 def _gen_pilot(rng, kind):
     r = rng.random()
+    if kind.get("max") == "inf" and r < 0.12:
+        return "inf"  # the advertised maximum of an unbounded EVSE (what UncontrolledCharging sends)
     if r < 0.75:
         return rng.choice(_boundaries(kind)) + rng.choice(OFFS)
     if r < 0.9:
@@ -109,8 +111,13 @@ def _gen_case(rng, exact=False):
             ops.append({"op": "set_pilot", "p": _gen_pilot(rng, kind), "V": rng.choice([208, 240, 120, 277.5]),
                         "T": rng.choice([1, 5, 15, 0.5]), "nu": round(rng.gauss(0, 0.5), 4)})
         elif r < 0.9:
-            ops.append({"op": "plugin", "ev": _gen_ev(rng, k)})
-            k += 1
+            prev = [o for o in ops if o["op"] == "plugin"]
+            if prev and rng.random() < 0.4:
+                # re-plug the occupant itself, or a rebuilt EV carrying the same session id
+                ops.append({"op": "plugin", "ev": prev[-1]["ev"], "same": rng.choice(["object", "copy"])})
+            else:
+                ops.append({"op": "plugin", "ev": _gen_ev(rng, k)})
+                k += 1
         else:
             ops.append({"op": "unplug"})
     return {"kind": kind, "ops": ops}
@@ -141,7 +148,7 @@ def generate(rng, n, tier):
 # ------------------------------------------------------------------ implementation
 
 def _obs_state(evse):
-    return {"pilot": float(evse.current_pilot), "ev": I.ev_state(evse.ev)}
+    return {"pilot": I.enc(float(evse.current_pilot)), "ev": I.ev_state(evse.ev)}
 
 
 def run_impl(case):
@@ -153,9 +160,16 @@ def run_impl(case):
     # advertised values are themselves accepted (checked on the real predicate)
     adv = []
     for v in set(info["allowable"] + [info["max"]] + ([0.0] if case["kind"]["t"] != "cont" else [info["min"]])):
-        if not math.isinf(v):
-            adv.append([v, bool(evse._valid_rate(v))])
-    info["advertised_accepted"] = sorted(adv)
+        ok = bool(evse._valid_rate(v))
+        # ... and through the public entry point, on a fresh EVSE of the same kind (incl. inf)
+        fresh = I.make_evse(case["kind"])
+        try:
+            fresh.set_pilot(v, 208, 5)
+            ok_sp = fresh.current_pilot == v
+        except Exception:  # noqa
+            ok_sp = False
+        adv.append([I.enc(v), ok and ok_sp])
+    info["advertised_accepted"] = sorted(adv, key=lambda t: float(t[0]))
     # network cache + Interface accessors
     info["iface"] = _iface_info(case["kind"])
     steps = []
@@ -173,7 +187,10 @@ def run_impl(case):
                 if op == "set_pilot":
                     evse.set_pilot(I.num(o["p"]), o["V"], o["T"])
                 elif op == "plugin":
-                    evse.plugin(I.make_ev(o["ev"]))
+                    if o.get("same") == "object" and evse.ev is not None:
+                        evse.plugin(evse.ev)
+                    else:
+                        evse.plugin(I.make_ev(o["ev"]))
                 elif op == "unplug":
                     evse.unplug()
             except Exception as e:  # noqa
@@ -261,7 +278,7 @@ def compare(case, obs, model):
                 pass
             out.append(f"step {i}: err impl={a['err']} model={m['err']} op={case['ops'][i]}")
             continue
-        if not close(a["pilot"], b2f(m["pilot"])):
+        if not close(I.num(a["pilot"]), b2f(m["pilot"])):
             out.append(f"step {i}: pilot impl={a['pilot']} model={b2f(m['pilot'])}")
         _cmp_ev(a["ev"], m["ev"], out, f"step {i}")
     return out
@@ -293,6 +310,9 @@ def _dist(kind, p):
 
 def _expected_valid(kind, p, atol):
     """True / False / None (abstain: within 1e-9 of the tolerance edge, doubles may round)."""
+    if isinstance(p, float) and math.isinf(p):
+        # +inf is exactly the advertised maximum of an unbounded continuous/deadband EVSE
+        return p > 0 and kind["t"] != "finite" and math.isinf(float(I.num(kind["max"])))
     d = _dist(kind, p)
     if d is None:
         return False
@@ -349,7 +369,7 @@ def oracle(case, obs):
                     fails.append({"kind": "rejected_pilot_changed_state", "detail": f"op {i}: before={b} after={ {k: st[k] for k in ('pilot','ev')} }"})
             else:
                 p = I.num(o["p"])
-                if st["pilot"] != float(p):
+                if float(I.num(st["pilot"])) != float(p):
                     fails.append({"kind": "accepted_pilot_not_stored", "detail": f"op {i}: pilot={st['pilot']} expected={p}"})
         elif op == "plugin":
             occupied = st["before"]["ev"] is not None
@@ -379,7 +399,9 @@ def nontrivial(case, obs):
 def features(case, obs):
     out = ["kind:" + case["kind"]["t"]]
     for o, st in zip(case["ops"], obs["steps"]):
-        out.append("op:" + o["op"])
+        if o["op"] == "set_pilot" and o["p"] == "inf":
+            out.append("set_pilot_inf")
+        out.append("op:" + o["op"] + (":same_" + o["same"] if o.get("same") else ""))
         if "err" in st and st["err"]:
             out.append("err:" + st["err"])
         if o["op"] == "valid":
